@@ -132,8 +132,11 @@ def run(ctx):
     ctx.gen_tables.update(m1_mainloop.regen())      # reset statements of run() → lean/TLX/Gen/MainLoopConsts.lean
     import translate                 # decision-logic functions re-translated from the source and proved equal to the model
     _tm, _tt = translate.wire(ctx, "C04")
-    ctx.prove(["TLX.Props.C04"] + _tm)
+    import export_demux_thms, file_corr      # C04 for the whole program (Props/ExportDemux), tied file to file
+    ctx.prove(["TLX.Props.C04"] + _tm + export_demux_thms.LEMMA_MODULES + export_demux_thms.MODULES)
     ctx.require_theorems(_tt)
+    ctx.require_theorems(export_demux_thms.THEOREMS + export_demux_thms.THEOREMS_LEMMAS)
+    file_corr.correspond(ctx, ctx.n(12, 200))
     ctx.require_theorems([t for t in m1_mainloop.THEOREMS if t.startswith("TLX.Props.C04.")])
     m1_mainloop.correspond(ctx)       # ties TLX.MainLoop to the real handle_packet / handle_quic_packet / run()
     explore(ctx)
